@@ -46,7 +46,7 @@ TABLE = {
     "C08": dict(
         technique="translation validation by an independent compiler: gcc -S -O0/-O1 output of the original and of the CGenerator text (both configurations) must be byte-identical, for Hypothesis-generated type-correct programs and the gcc-compilable corpus",
         text="Programs from the typed builder (gcc-valid only) and the preprocessed corpus files gcc compiles are parsed, regenerated and recompiled; the assembly at -O0 and -O1 must be identical after dropping .file/.ident. Nothing of pycparser takes part in the comparison, so faults shared by parser and generator show. Statistical (about 200 programs per quick run, 4 800 per thorough run); differences invisible on LP64 (long vs long long) or in code generation ('static' in array parameters) are out of reach and left to C07.",
-        note="Trusted: gcc 12 determinism; programs gcc rejects are generator misses and unused.",
+        note="The typed builder draws prefix operators on operands starting with the same character ('- --x', '+ ++x', 'a - -b'). Trusted: gcc 12 determinism; programs gcc rejects are generator misses and unused.",
         ref="DESIGN.md section 4, C08",
     ),
     "C09": dict(
@@ -70,7 +70,7 @@ TABLE = {
     "C15": dict(
         technique="round-trip oracles (eval(repr), pickle protocols 2..HIGHEST, deepcopy) with structural dump equality incl. coordinates, id-disjointness and mutate-the-copy independence on Hypothesis-generated ASTs with hostile literals and on the corpus",
         text="Generated translation units whose string/character constants and pragma texts come from a hostile pool (quotes, backslashes, escapes, non-ASCII, repr look-alikes) and the corpus are parsed; each AST is rebuilt through repr/eval, every supported pickle protocol and deepcopy and compared structurally, by generated text under both generator configurations (also for the repr-rebuilt tree), by object identity and by mutating the copy; every second AST is copied while weak references to all its nodes are alive; every fifth after a repr / pickle / deepcopy that was cut short by a RecursionError. Literal pools include characters outside the BMP and control characters. Statistical over generated programs.",
-        note="Trusted: astdump.dump (walks __slots__, including node-valued attributes and Coord fields).",
+        note="Two thirds of the programs are parsed under file names with colons, blanks, quotes, backslashes or non-ASCII characters, most behind a linemarker naming a further file. Trusted: astdump.dump (walks __slots__, including node-valued attributes and Coord fields).",
         ref="DESIGN.md section 4, C15",
     ),
     "C19": dict(
@@ -106,7 +106,7 @@ TABLE = {
     "C11": dict(
         technique="provenance oracle: the model renderer records each construct's token range and spelling token, the layout engine each token's real (file, line, column) under random layouts with file-changing linemarkers; lockstep walk of the returned AST against the annotated expected AST; illegal-character injection and token deletion for error locations",
         text="Hypothesis-generated translation units are laid out with blanks, tabs, newlines and linemarkers (8 forms, changing line and file) between arbitrary tokens. Every coordinate must be the start of a real token inside its construct's token range, exactly the spelling token for identifiers, constants and declared names, and present on declarations, statements, identifiers, constants and operators. Every injection of @ ` \\ /* // at every token boundary must be reported at exactly that position; parse errors after single-token deletions must name a real token. Statistical over programs and layouts; per program the injection positions are enumerated completely (<= 80 tokens).",
-        note="Trusted: renderer provenance + layout engine (cross-checked: every generated text is accepted and C09 verifies token positions independently); AST shape as established by C02/C03/C05.",
+        note="An illegal character at every offset of a line directive behind the first digit of its number must be reported at exactly that column. Trusted: renderer provenance + layout engine (cross-checked: every generated text is accepted and C09 verifies token positions independently); AST shape as established by C02/C03/C05.",
         ref="DESIGN.md section 4, C11",
     ),
     "C16": dict(
